@@ -21,7 +21,7 @@
 extern int __lsan_do_recoverable_leak_check(void);
 #endif
 static const char *cur_sc = "-";
-static long long st_reps, st_checks, st_fd_opened, st_names_checked, st_blocks_alloc;
+static long long st_reps, st_checks, st_fd_opened, st_names_checked, st_blocks_alloc, st_failing_reps;
 
 static void viol(const char *symptom, const char *detail_key, const char *fmt, ...) __attribute__((format(printf, 3, 4)));
 static void viol(const char *symptom, const char *detail_key, const char *fmt, ...) {
@@ -89,7 +89,7 @@ static void run_one(void (*fn)(void)) { snprintf(uniq, sizeof uniq, "vfC20-%d-%l
 
 int main(int argc, char **argv) {
 	PMemVTable vt; vh_rng r; double t0 = vh_now(); int i, R = (int)vh_argi(argc, argv, "--R", 5), ncat = (int)vh_argi(argc, argv, "--concat", 20); const char *only = vh_arg(argc, argv, "--scenario", NULL);
-	Snap base, now; long fdbase[5] = { 0, 0, 0, 0, 0 }; unsigned long mark;
+	Snap base, now; long fdbase[5] = { 0, 0, 0, 0, 0 }; unsigned long mark; long long nalloc = 0;
 	vh_seed(&r, (uint64_t)vh_argi(argc, argv, "--seed", 1) * 6364136223846793005ULL);
 	if (vh_flag(argc, argv, "--list")) { for (i = 0; i < NSC; i++) puts(SC[i].name); return 0; }
 	(void)vh_private_net();
@@ -103,12 +103,17 @@ int main(int argc, char **argv) {
 		if (only && strcmp(only, SC[i].name)) continue;
 		if (!strcmp(SC[i].name, "init_shutdown")) continue;       /* handled at the very end: the whole process is the sequence */
 		cur_sc = SC[i].name;
+		va_reset_count();
 		run_one(SC[i].fn); n_ipc = 0; usleep(20000);                /* warm-up: libc/dl/stdio caches */
+		nalloc = va_count;
 		{ long o, c, s, d, u; w_fd_stats(&o, &c, &s, &d, &u); fdbase[2] = s; fdbase[3] = d; }
 		va_bad_free = 0;
 		snap_take(&base); mark = va_mark();
 		for (rep = 0; rep < R && vh_nviol < vh_max_viol; rep++) {
+			/* "this holds equally when calls in the sequence fail": every second repetition one allocation of the sequence is refused */
+			if ((rep & 1) && nalloc > 0 && strcmp(SC[i].name, "thread") && strcmp(SC[i].name, "threads_tls") && strcmp(SC[i].name, "thread_foreign")) { va_arm(1 + (long long)vh_below(&r, (uint64_t)nalloc), 0); st_failing_reps++; }
 			run_one(SC[i].fn);
+			va_disarm();
 			check_allocs(mark); snap_take(&now); snap_compare(&base, &now); check_names(); check_fdtable(fdbase); st_checks++;
 			if (vh_nviol) break;
 		}
@@ -134,7 +139,7 @@ int main(int argc, char **argv) {
 	 * as unreachable now that every object is freed and the library is shut down (report on stderr, parsed by the orchestrator) */
 	if (getenv("VH_LSAN")) printf("{\"ev\":\"lsan\",\"leaks\":%d}\n", __lsan_do_recoverable_leak_check());
 #endif
-	printf("{\"ev\":\"stats\",\"scenario_runs\":%lld,\"neutrality_checks\":%lld,\"descriptors_tracked\":%ld,\"ipc_names_checked\":%lld,\"allocations\":%lld,\"frees\":%lld,\"viol\":%d,\"wall\":%.2f}\n",
-	       st_reps, st_checks, st_fd_opened, st_names_checked, va_total_alloc, va_total_free, vh_nviol, vh_now() - t0);
+	printf("{\"ev\":\"stats\",\"scenario_runs\":%lld,\"runs_with_a_refused_allocation\":%lld,\"neutrality_checks\":%lld,\"descriptors_tracked\":%ld,\"ipc_names_checked\":%lld,\"allocations\":%lld,\"frees\":%lld,\"viol\":%d,\"wall\":%.2f}\n",
+	       st_reps, st_failing_reps, st_checks, st_fd_opened, st_names_checked, va_total_alloc, va_total_free, vh_nviol, vh_now() - t0);
 	fflush(NULL); _exit(0);
 }
